@@ -12,6 +12,9 @@ Inductive sym :=
 | SGroup (a:sym).            (* Group(a) *)
 
 Definition string_of_Z (z:Z) : string := NilZero.string_of_int (Z.to_int z).
+(* _const_str: the string grammar has no negative literals, a negative constant is written (0-n) *)
+Definition const_str (z:Z) : string :=
+  if (z <? 0)%Z then String.append "(0-" (String.append (string_of_Z (- z)) ")") else string_of_Z z.
 Definition op_str (o:op) : string :=
   match o with ADD => "+" | SUB => "-" | MUL => "*" | EXP => "^" | DIV => "/" | MIN => "min" | MAX => "max" | ISQRT => "isqrt" end.
 Definition cat3 (a b c:string) : string := String.append a (String.append b c).
@@ -36,11 +39,11 @@ Definition needs_paren (parent:nat) (operand:sym) (is_rhs:bool) : bool :=
 
 Fixpoint sprint (s:sym) : res string :=
   match s with
-  | SLit z => Ok (string_of_Z z)
+  | SLit z => Ok (const_str z)
   | SVar x => Ok x
   | SBin o l r =>
       match l, r with
-      | SLit a, SLit b => do v <- fold_bin o a b; Ok (string_of_Z v)
+      | SLit a, SLit b => do v <- fold_bin o a b; Ok (const_str v)
       | _, _ =>
         do sl <- sprint l; do sr <- sprint r;
         let sl' := if needs_paren (prec o) l false then cat3 "(" sl ")" else sl in
@@ -54,7 +57,7 @@ Fixpoint sprint (s:sym) : res string :=
       end
   | SFun2 o a b =>
       match a, b with
-      | SLit x, SLit y => do v <- fold_bin o x y; Ok (string_of_Z v)
+      | SLit x, SLit y => do v <- fold_bin o x y; Ok (const_str v)
       | _, _ => do sa <- sprint a; do sb <- sprint b;
                 Ok (String.append (op_str o) (cat3 "(" (cat3 sa "," sb) ")"))
       end
